@@ -204,3 +204,20 @@ def rel(a, b):
     """scale-aware distance"""
     a = np.asarray(a); b = np.asarray(b)
     return float(np.linalg.norm(a - b) / (1.0 + max(np.linalg.norm(a), np.linalg.norm(b))))
+
+
+def relayout(a, k):
+    """the same array in another memory layout (values, shape and dtype unchanged): k % 4 == 1 Fortran order, 2 a non-contiguous
+    view into a larger buffer, 3 a view with negative strides of a reversed copy; 0 unchanged"""
+    a = np.asarray(a)
+    k = k % 4
+    if k == 0 or a.ndim == 0 or a.size == 0:
+        return a
+    if k == 1:
+        return np.asfortranarray(a)
+    if k == 2:
+        big = np.zeros(tuple(n + 1 for n in a.shape), dtype=a.dtype)
+        big[tuple(slice(0, n) for n in a.shape)] = a
+        return big[tuple(slice(0, n) for n in a.shape)]
+    rev = np.ascontiguousarray(a[..., ::-1])
+    return rev[..., ::-1]
